@@ -169,7 +169,7 @@ def _leg_problems(U, VH, a):
     return out
 
 
-def run_decomp(case):
+def _run_decomp(case):
     """svd_theta / eigh_rho on a random block-sparse matrix; report reconstruction numbers."""
     import tenpy.linalg.np_conserved as npc
     from tenpy.linalg.truncation import svd_theta, eigh_rho
@@ -291,6 +291,16 @@ def run_decomp(case):
                        'ov': float(err2.ov),
                        'warnings': [str(w.message)[:60] for w in wlist2 if issubclass(w.category, UserWarning)][:3]}
     return out
+
+
+def run_decomp(case):
+    """_run_decomp; a crash of the dense post-processing (results of inconsistent shapes ...) is an observation about the
+    returned objects, reported with the case"""
+    try:
+        return _run_decomp(case)
+    except Exception as e:
+        import traceback
+        return {'inconsistent': type(e).__name__ + ': ' + str(e)[:200], 'tb': traceback.format_exc()[-500:]}
 
 
 def _ratio(x):
